@@ -229,6 +229,8 @@ CheckOp(ev) ==
                   ELSE {V(IF RelTouched(ev) THEN "C04.valid-call-panicked" ELSE "C01.valid-call-panicked", ev.op)})
             ELSE IF ~x.pre /\ ~ev.panic
             THEN {V(IF isRes THEN "C18.resource" ELSE IF lockMis THEN "C07.structural-succeeded" ELSE "C10.accepted", <<ev.op, ev.ev>>)}
+                 \* "... or changing a locked world always panics" is a clause of C10 as well
+                 \cup (IF lockMis /\ ~isRes THEN {V("C10.accepted", <<ev.op, "on a locked world">>)} ELSE {})
             ELSE {}
         vDup == {V("C02.duplicate-handle", made[i]) : i \in {j \in DOMAIN made : made[j] \in w.issued}}
                 \cup {V("C02.duplicate-handle", made[i]) :
@@ -242,6 +244,7 @@ CheckOp(ev) ==
         vCount == IF ev.st.used # Cardinality(shouldLive)
                   THEN {V(IF ~x.pre \/ ev.panic THEN (IF lockMis THEN "C07.effect-after-panic" ELSE "C10.state-changed")
                           ELSE "C02.count", ev.st.used)}
+                       \cup (IF (~x.pre \/ ev.panic) /\ lockMis THEN {V("C10.state-changed", <<"locked world", ev.st.used>>)} ELSE {})
                   ELSE {}
         common == (DOMAIN got) \cap shouldLive
         Cls(h, kind) ==
@@ -261,8 +264,13 @@ CheckOp(ev) ==
                    ELSE Cls(h, "v")
         \* a wrong component set / value / target after a batch operation violates C06 and the property about
         \* the store itself (C01: "... their batch forms ..."; C04 for targets)
+        \* a rejected change of a locked world that had an effect violates C07 and C10 ("changing a locked world always
+        \* panics ... exactly as before the call"); a component created without a value that shows what another entity left
+        \* behind holds a value no operation on it wrote (C11 and C01)
         Also(cls, kind) == IF cls = "C06.state" THEN {IF kind = "c" THEN "C01.compset" ELSE IF kind = "t" THEN "C04.target" ELSE "C01.value"}
-                           ELSE IF cls = "C06.unselected" THEN {"C01.other-entity"} ELSE {}
+                           ELSE IF cls = "C06.unselected" THEN {"C01.other-entity"}
+                           ELSE IF cls = "C07.effect-after-panic" THEN {"C10.state-changed"}
+                           ELSE IF cls = "C11.dirty" THEN {"C01.value"} ELSE {}
         VV(cls, kind, d) == {V(cls, d)} \cup {V(c2, d) : c2 \in Also(cls, kind)}
         vEnt == UNION {
                   (IF got[h].c # exp.ent[h].c THEN VV(Cls(h, "c"), "c", <<h, got[h].c>>) ELSE {})
@@ -506,7 +514,9 @@ TNext ==
          [] ev.k = "op" /\ ~skip ->
                 LET r == CheckOp(ev) IN
                 /\ viol' = viol \o SetToSeq(r.vs)
-                /\ skip' = (r.vs # {} \/ ~r.def)
+                \* (a wrong IsLocked alone leaves the monitor's world usable: the history goes on, so that what a world
+                \* that is wrongly unlocked then accepts is seen as well - C07.structural-succeeded, C10.accepted)
+                /\ skip' = ((\E v \in r.vs : v.cls # "C07.locked-mismatch") \/ ~r.def)
                 /\ w' = r.next
                 /\ seqno' = seqno /\ rg' = rg
          [] ev.k = "probe" /\ ~skip ->
